@@ -113,3 +113,10 @@ Theorem C13_variants_rows_spec : forall append_snp s e thr refid recs,
                       (ssort (akey * nat) (fun a b => akey_lt (fst a) (fst b)) counts))).
 Proof. exact aggregate_rows_spec. Qed.
 Print Assumptions C13_variants_rows_spec.
+
+(* the per-sequence lists that variants / sam variants count are duplicate-free for every annotation (C04_no_record_twice, repair
+   D20), so "count" is "number of sequences" whenever the aggregator's key separates what the per-sequence record separates *)
+From GF Require Import VariantsProofs AaUniq.
+Theorem C13_variants_lists_nodup : forall ref que gs inter out, variants_pair_traced ref que gs inter = Ok out -> NoDup (map fst out).
+Proof. exact final_list_nodup. Qed.
+Print Assumptions C13_variants_lists_nodup.
